@@ -304,3 +304,25 @@ def scope_restored_on_every_exit(F, rep, rule):
                           fn, t.get("l"), "the guard has no Drop impl and the early returns skip the explicit exit" if not has_drop else "a path avoids every drop of the guard"),
                       b.where(), sample={"fn": fn, "guard_local": guard, "restoring_blocks": len(release), "guard_has_drop_impl": has_drop})
     rep.floor(rule, "FunctionScope::enter call sites", n, 2)
+
+
+# ---------------------------------------------------------------- C06-R13 (and C14-R6 for Hash impls)
+def no_unconditional_self_recursion(F, rep, rule, crates, only=None, floor=300):
+    """a body in which every path from entry to a return passes a call to the body itself never returns: calling it overflows the stack and aborts the host"""
+    rep.rule(rule, "no unconditional self-recursion: no function of the examined crates calls itself (same resolved callee) on every path to its return "
+                   "(e.g. a trait method whose body is `self.method()` with no inherent method of that name) - such a call overflows the stack and aborts the process")
+    n = 0
+    for c in crates:
+        for b in F.bodies(c):
+            if only is not None and not re.search(only, b.fn):
+                continue
+            n += 1
+            selfcalls = {i for i, t in b.calls() if (t.get("f") or "") == b.fn}
+            if not selfcalls:
+                continue
+            rets = {j for j, bb in enumerate(b.blocks) if bb["t"]["k"] == "ret"}
+            reach = b.reachable_from([0], avoid=selfcalls)
+            rep.check(bool(reach & rets), rule, "self-recursive:%s" % re.sub(r"nalgebra::base::(\w+::)*", "", b.fn)[:140],
+                      "%s calls itself on every path (line %s): any call overflows the stack and aborts the process" % (b.fn[:200], sorted({b.blocks[i]["t"].get("l") for i in selfcalls})), b.where(),
+                      sample={"fn": b.fn[:160], "self_calls": len(selfcalls)})
+    rep.floor(rule, "bodies examined for unconditional self-recursion", n, floor)
